@@ -300,6 +300,67 @@ fn check(ctx: &mut Ctx, s: &str, other_spelling: Option<&str>) {
     pct_route!("uri::Host", uri::HostBuf);
     pct_route!("uri::Query", uri::QueryBuf);
     pct_route!("uri::Fragment", uri::FragmentBuf);
+    // paths have every plain-text operand form (str, &str, String; the URI family also byte forms), on the
+    // borrowed and on the owned type: each against the text itself, against equivalent respellings (must be
+    // UNEQUAL as text) and against near misses
+    {
+        let mut others: Vec<String> = vec![format!("{}x", s), if s.starts_with('/') { format!("/.{}", s) } else { format!("./{}", s) }, format!("{}/.", s), format!("{}/x/..", s)];
+        if let Some(i) = s.find(|c: char| c.is_ascii_alphabetic()) {
+            others.push(format!("{}%{:02X}{}", &s[..i], s.as_bytes()[i], &s[i + 1..]));
+        }
+        if let Some(i) = s.find('%') {
+            if s.len() >= i + 3 && s.is_char_boundary(i + 3) {
+                let hex = &s[i + 1..i + 3];
+                let sw: String = hex.chars().map(|c| if c.is_ascii_lowercase() { c.to_ascii_uppercase() } else { c.to_ascii_lowercase() }).collect();
+                if sw != hex { others.push(format!("{}%{}{}", &s[..i], sw, &s[i + 3..])); }
+            }
+        }
+        macro_rules! path_probe {
+            ($name:literal, $v:expr, $bytes:tt) => {{
+                let v = $v;
+                ctx.call("== str/&str/String (path)");
+                let owned_s = s.to_string();
+                if !(*v == *s) || !(*v == s) || !(*v == owned_s) {
+                    ctx.fail("C14.eq-str", feats($name, "== str/&str/String (path)"), format!("{}: {} does not compare equal to its own text", $name, show(s.as_bytes())));
+                }
+                for o in &others {
+                    if o == s { continue; }
+                    if *v == *o.as_str() || *v == o.as_str() || *v == o.clone() {
+                        ctx.fail("C14.eq-str", feats($name, "== str/&str/String (path)"), format!("{}: {} compares equal to the different text {}", $name, show(s.as_bytes()), show(o.as_bytes())));
+                    }
+                    path_probe!(@bytes $bytes, $name, v, o);
+                }
+            }};
+            (@bytes yes, $name:literal, $v:expr, $o:expr) => {
+                if *$v == *$o.as_bytes() || *$v == $o.as_bytes() || !(*$v == *s.as_bytes()) || !(*$v == s.as_bytes()) {
+                    ctx.fail("C14.eq-str", feats($name, "== [u8]/&[u8] (path)"), format!("{}: byte comparison of {} is not plain text equality (other text {})", $name, show(s.as_bytes()), show($o.as_bytes())));
+                }
+            };
+            (@bytes no, $name:literal, $v:expr, $o:expr) => {};
+        }
+        // the four main kinds, borrowed and owned, against the same respellings
+        macro_rules! main_probe {
+            ($name:literal, $T:ty, $input:expr) => {
+                if let Ok(v) = <$T>::new($input) {
+                    let vo = v.to_owned();
+                    ctx.call("== str/&str/String (respelled)");
+                    for o in &others {
+                        if o == s { continue; }
+                        if *v == *o.as_str() || *v == o.as_str() || *v == o.clone() || vo == *o.as_str() || vo == o.as_str() || vo == o.clone() {
+                            ctx.fail("C14.eq-str", feats($name, "== str/&str/String (respelled)"), format!("{}: {} compares equal to the different text {}", $name, show(s.as_bytes()), show(o.as_bytes())));
+                        }
+                    }
+                }
+            };
+        }
+        main_probe!("Iri", iref::Iri, s);
+        main_probe!("IriRef", iref::IriRef, s);
+        main_probe!("Uri", iref::Uri, s.as_bytes());
+        main_probe!("UriRef", iref::UriRef, s.as_bytes());
+        if let Ok(v) = iri::Path::new(s) { path_probe!("iri::Path", v, no); }
+        if let Ok(v) = iri::PathBuf::new(s.to_string()) { path_probe!("iri::PathBuf", &v, no); }
+        if let Ok(v) = uri::Path::new(s.as_bytes()) { path_probe!("uri::Path", v, yes); }
+    }
     // a value that borrows a PREFIX (or a suffix) of a longer text, compared with that text itself
     // (same start or end address, different length)
     {
